@@ -8,8 +8,10 @@ class hands to its eigen-solver; `gramSpec get shape n a b` (Spec/Nvecs.lean) is
 The eigen-solvers are a service with the contract `EigContract G m K w V`: `K` orthonormal
 eigenpairs of `G`, in any order.  `nvecsPost` is the code's post-processing.
 -/
-import PyttbModel.Lemmas.NvecsGram
+import PyttbModel.Lemmas.NvecsGramTucker
 import PyttbModel.Lemmas.NvecsPost
+import PyttbModel.Lemmas.NvecsSubspace
+import PyttbModel.Lemmas.NvecsEnergy
 namespace Pyttb
 
 variable {α : Type}
@@ -29,6 +31,51 @@ theorem C14_gram_kruskal [CommSemiring α] (K : Ktensor α) (hK : K.WF) (n : Nat
     ∃ Y, K.nvecsGram n = .ok Y ∧ Y.length = K.shape.getD n 0 ∧ (∀ row ∈ Y, row.length = K.shape.getD n 0) ∧
       ∀ a b, a < K.shape.getD n 0 → b < K.shape.getD n 0 → Y.get a b = gramSpec K.get K.shape n a b :=
   gram_kruskal K hK n hn
+
+/-- `sptensor.nvecs` (repaired code, commits a015f52 / 9e6d090): the Gram matrix formed from
+`to_sptenmat(rdims=[n]).double()` is that of the denoted array, for every shape that is not
+all-singleton (singleton modes included), every stored order and every mode. -/
+theorem C14_gram_sparse [Semiring α] [DecidableEq α] (S : Sparse α) (hS : S.WF) (n : Nat) (hn : n < S.shape.length)
+    (hns : S.shape.all (· == 1) = false) :
+    ∃ Y, S.nvecsGram n = .ok Y ∧ Y.length = S.shape.getD n 0 ∧ (∀ row ∈ Y, row.length = S.shape.getD n 0) ∧
+      ∀ a b, a < S.shape.getD n 0 → b < S.shape.getD n 0 → Y.get a b = gramSpec S.get S.shape n a b :=
+  gram_sparse S hS n hn hns
+
+/-- … and an `sptensor` whose extents are all 1 is refused (documented `ValueError`, kept by design:
+known finding F14-sparse-all-singleton-refused). -/
+theorem C14_gram_sparse_refuses [Add α] [Mul α] [Zero α] [BEq α] (S : Sparse α) (n : Nat)
+    (h : S.shape.all (· == 1) = true) : S.nvecsGram n = .error .reject := gram_sparse_refuses S n h
+
+/-- `ttensor.nvecs` (dense core): `H₍ₙ₎ · (G₍ₙ₎ᵀ U_nᵀ)` with `H = G ×ₙ U_n ×_{i≠n} U_iᵀU_i` is the Gram
+matrix of the mode-n unfolding of the array the Tucker tensor denotes.  (`tensor.ttm` with a list of
+matrices enters through its entry-wise meaning, which is property C02.) -/
+theorem C14_gram_tucker [CommSemiring α] (T : Ttensor α) (hT : T.WFn) (n : Nat) (hn : n < T.factors.length) :
+    ∃ Y, T.nvecsGram n = .ok Y ∧ Y.length = T.shape.getD n 0 ∧ (∀ row ∈ Y, row.length = T.shape.getD n 0) ∧
+      ∀ a b, a < T.shape.getD n 0 → b < T.shape.getD n 0 → Y.get a b = gramSpec T.get T.shape n a b :=
+  gram_tucker T hT n hn
+
+/-- Representations that denote the same array hand their solvers THE SAME matrix: a dense, a sparse,
+a Kruskal and a Tucker holder of one array (same shape, equal entries at every subscript). -/
+theorem C14_gram_agree [CommSemiring α] [DecidableEq α] (T : Dense α) (S : Sparse α) (K : Ktensor α)
+    (Tk : Ttensor α) (hT : T.WF) (hS : S.WF) (hK : K.WF) (hTk : Tk.WFn) (n : Nat) (hn : n < T.shape.length)
+    (hsS : S.shape = T.shape) (hsK : K.shape = T.shape) (hsTk : Tk.shape = T.shape)
+    (hns : T.shape.all (· == 1) = false)
+    (hdS : ∀ i, InBounds T.shape i → T.get i = S.get i) (hdK : ∀ i, InBounds T.shape i → T.get i = K.get i)
+    (hdTk : ∀ i, InBounds T.shape i → T.get i = Tk.get i) :
+    ∃ Y, T.nvecsGram n = .ok Y ∧ S.nvecsGram n = .ok Y ∧ K.nvecsGram n = .ok Y ∧ Tk.nvecsGram n = .ok Y := by
+  obtain ⟨Y, h1, hd⟩ := gram_dense T hT n hn
+  obtain ⟨Y2, h2, hs⟩ := gram_sparse S hS n (by rw [hsS]; exact hn) (by rw [hsS]; exact hns)
+  obtain ⟨Y3, h3, hk⟩ := gram_kruskal K hK n (by
+    have : K.shape.length = K.factors.length := by simp [Ktensor.shape]
+    rw [← this, hsK]; exact hn)
+  obtain ⟨Y4, h4, ht⟩ := gram_tucker Tk hTk n (by
+    have : Tk.shape.length = Tk.factors.length := by simp [Ttensor.shape]
+    rw [← this, hsTk]; exact hn)
+  rw [hsS] at hs; rw [hsK] at hk; rw [hsTk] at ht
+  refine ⟨Y, h1, ?_, ?_, ?_⟩
+  · rw [h2, gram_unique T.get S.get T.shape n hn rfl hd hs hdS]
+  · rw [h3, gram_unique T.get K.get T.shape n hn rfl hd hk hdK]
+  · rw [h4, gram_unique T.get Tk.get T.shape n hn rfl hd ht hdTk]
 
 /-! ### solver choice -/
 
@@ -98,6 +145,55 @@ theorem C14_sign_rule_sparse_dense_path [Field α] [LinearOrder α] [IsStrictOrd
   have := flipSigns_rule (takeCols (permRows V (argsortDescAbs w)) r) r k hV (by simpa [takeCols] using hm) hk
   simpa [nvecsPostSparseDense, takeCols] using this
 
+/-! ### equal matrices, equal leading subspaces -/
+
+/-- Spectral gap at `r` ⇒ the leading invariant subspace is unique.  Let `G` have the complete
+orthonormal eigenbasis `Q` with eigenvalues `q` of which those at positions `≥ r` are at most `γ`
+(the part of the spectrum below the gap), and let `(a, U)`, `(b, V)` be two families of `r` orthonormal
+eigenpairs of `G` with all eigenvalues above `γ` — e.g. what `nvecs` returns for two representations
+of one array (they hand the solver the same `G`, `C14_gram_agree`).  Then `U Uᵀ = V Vᵀ` entry by
+entry (both are the projector onto the span of the first `r` columns of `Q`): the columns span the
+same subspace, whatever solver, order or signs produced them. -/
+theorem C14_same_subspace [Field α] [LinearOrder α] [IsStrictOrderedRing α] (G Q U V : Mat α) (q a b : List α)
+    (m r : Nat) (γ : α) (hr : r ≤ m) (hQ : EigContract G m m q Q)
+    (hlow : ∀ j, r ≤ j → j < m → q.getD j 0 ≤ γ)
+    (hU : EigContract G m r a U) (hV : EigContract G m r b V)
+    (ha : ∀ k, k < r → γ < a.getD k 0) (hb : ∀ k, k < r → γ < b.getD k 0) :
+    ∀ i l, i < m → l < m → projEntry U r i l = projEntry V r i l := by
+  intro i l hi hl
+  rw [projEntry_eq_of_gap G Q U q a m r hr hQ hU
+      (fun j k hj hjm hk => ne_of_lt (lt_of_le_of_lt (hlow j hj hjm) (ha k hk))) i l hi hl,
+    projEntry_eq_of_gap G Q V q b m r hr hQ hV
+      (fun j k hj hjm hk => ne_of_lt (lt_of_le_of_lt (hlow j hj hjm) (hb k hk))) i l hi hl]
+
+/-! ### maximal energy (Ky Fan's maximum principle) -/
+
+/-- `energy G W m r = Σ_k w_kᵀ G w_k = trace(Wᵀ G W)`; for `G = X₍ₙ₎ X₍ₙ₎ᵀ` this is `‖Wᵀ X₍ₙ₎‖²`, the energy
+of the unfolding captured by the columns of `W`.  If `G` has the complete orthonormal eigenbasis `Q`
+with eigenvalues `q` in decreasing order, then NO `r` orthonormal columns capture more than
+`q₀ + … + q_{r-1}`, and `r` orthonormal eigenvectors capture exactly the sum of their eigenvalues — so
+orthonormal eigenvectors for the `r` largest eigenvalues capture the maximal energy.  (For the
+iterative path "the returned eigenvalues are the `r` largest of the spectrum" is the contract of
+`eigsh(which='LM')` on a positive semi-definite matrix; for the dense path see the next theorem.) -/
+theorem C14_max_energy [Field α] [LinearOrder α] [IsStrictOrderedRing α] (G Q W U : Mat α) (q : List α)
+    (a : Nat → α) (m r : Nat) (hr : r ≤ m) (hQ : EigContract G m m q Q)
+    (hsorted : ∀ i j, i ≤ j → j < m → q.getD j 0 ≤ q.getD i 0) (hW : OrthonormalCols W m r)
+    (hU : OrthonormalCols U m r) (hUe : ∀ k, k < r → IsEigCol G U m k (a k)) :
+    energy G W m r ≤ ∑ k ∈ Finset.range r, q.getD k 0 ∧ energy G U m r = ∑ k ∈ Finset.range r, a k :=
+  ⟨ky_fan_list G Q W q m r hr hQ hsorted hW, energy_of_eig G U a m r hU hUe⟩
+
+/-- Dense-solver path (`tensor`, `ktensor`, `ttensor`): the solver returns a complete orthonormal
+eigenbasis in any order; the eigenvalues of a Gram matrix are non-negative
+(`C14_gram_eigenvalues_nonneg`); then the returned matrix captures at least as much energy as ANY
+matrix with `r` orthonormal columns, namely the sum of the `r` largest eigenvalues. -/
+theorem C14_max_energy_dense_path [Field α] [LinearOrder α] [IsStrictOrderedRing α] (G V W : Mat α) (w : List α)
+    (m r : Nat) (flip : Bool) (hc : EigContract G m m w V) (hpos : ∀ k, k < m → 0 ≤ w.getD k 0) (hr : r ≤ m)
+    (hW : OrthonormalCols W m r) :
+    energy G W m r ≤ energy G (nvecsPost w V r flip) m r ∧
+    energy G (nvecsPost w V r flip) m r =
+      ∑ k ∈ Finset.range r, w.getD ((argsortDescAbs w).getD k 0) 0 :=
+  nvecsPost_max_energy G V W w m r flip hc hpos hr hW
+
 /-! ### the dense-solver path of `sptensor.nvecs` does NOT satisfy `C14_postprocess` -/
 
 /-- `sptensor.nvecs` with `r ≥ size - 1` permutes the ROWS of the eigenvector matrix
@@ -127,5 +223,9 @@ example : (⟨[2, 2], [1, 3, 2, 0]⟩ : Dense Int).nvecsGram 0 = .ok [[5, 3], [3
 example : (⟨[1, 2], [[[1, 0], [0, 1]], [[1, 1], [0, 1]]]⟩ : Ktensor Int).nvecsGram 1 = .ok [[5, 4], [4, 4]] := by
   decide
 example : gramSpec (⟨[2, 2], [1, 3, 2, 0]⟩ : Dense Int).get [2, 2] 0 0 1 = 3 := by decide
+example : (⟨[2, 2], [[0, 0], [0, 1], [1, 0]], [1, 2, 3]⟩ : Sparse Int).WF ∧ ([2, 2].all (· == 1)) = false :=
+  ⟨⟨by decide, by decide, by decide, by decide⟩, by decide⟩
+example : (⟨⟨[2, 2], [1, 3, 2, 0]⟩, [[[1, 0], [0, 1]], [[1, 0], [0, 1]]]⟩ : Ttensor Int).nvecsGram 0 =
+    .ok [[5, 3], [3, 9]] := by decide
 
 end Pyttb
